@@ -13,16 +13,13 @@
 package main
 
 import (
-	"bytes"
 	"crypto/sha256"
-	stdx509 "crypto/x509"
 	"encoding/json"
 	"fmt"
+	"hash/fnv"
 	"math/rand"
 	"os"
-	"reflect"
 	"runtime"
-	"sort"
 	"strconv"
 	"sync"
 	"time"
@@ -30,6 +27,7 @@ import (
 	"github.com/zmap/zcrypto/x509"
 	"verifharness/lib/obs"
 	"verifharness/lib/pki"
+	"verifharness/lib/pkv"
 )
 
 type Case struct {
@@ -138,146 +136,10 @@ func buildAll(ids []string) {
 		keyIDs[universe[id].SKey] = true
 	}
 	for _, id := range ids {
-		if msg := checkConcretisation(universe[id], ders[id], keyIDs); msg != "" {
+		if msg := pkv.CheckConcretisation(universe[id], ders[id], keyIDs); msg != "" {
 			obs.Fatal("concretisation of %s does not match its abstract record: %s", id, msg)
 		}
 	}
-}
-
-var ekuName = map[x509.ExtKeyUsage]string{
-	x509.ExtKeyUsageAny: "any", x509.ExtKeyUsageServerAuth: "server", x509.ExtKeyUsageClientAuth: "client",
-	x509.ExtKeyUsageCodeSigning: "code", x509.ExtKeyUsageEmailProtection: "email", x509.ExtKeyUsageOcspSigning: "ocsp",
-	x509.ExtKeyUsageMicrosoftServerGatedCrypto: "msgc", x509.ExtKeyUsageNetscapeServerGatedCrypto: "nsgc",
-	x509.ExtKeyUsageTimeStamping: "time",
-}
-var ekuValue = func() map[string]x509.ExtKeyUsage {
-	m := map[string]x509.ExtKeyUsage{}
-	for k, v := range ekuName {
-		m[v] = k
-	}
-	return m
-}()
-
-func checkConcretisation(a pki.Cert, der []byte, keyIDs map[string]bool) string {
-	c, err := x509.ParseCertificate(der)
-	if err != nil {
-		return "zcrypto cannot parse it: " + err.Error()
-	}
-	ver := a.Ver
-	if ver == 0 {
-		ver = 3
-	}
-	if c.Version != ver {
-		return fmt.Sprintf("version %d, want %d", c.Version, ver)
-	}
-	// names: raw bytes are what the verifier links on
-	wantIss := pki.RawName(a.Iss)
-	if a.CN == "" {
-		if !bytes.Equal(c.RawSubject, pki.RawName(a.Subj)) {
-			return "raw subject differs"
-		}
-	} else {
-		if c.Subject.CommonName != a.CN || len(c.Subject.OrganizationalUnit) != 1 || c.Subject.OrganizationalUnit[0] != a.Subj {
-			return "subject with common-name override differs"
-		}
-		if a.Iss == a.Subj {
-			wantIss = c.RawSubject
-		}
-	}
-	if !bytes.Equal(c.RawIssuer, wantIss) {
-		return "raw issuer differs"
-	}
-	spki, err := stdx509.MarshalPKIXPublicKey(pki.Key(a.Key).Public())
-	if err != nil {
-		return err.Error()
-	}
-	if !bytes.Equal(spki, c.RawSubjectPublicKeyInfo) {
-		return "subject public key differs"
-	}
-	// signature: verified with the standard library under exactly the abstract signing key
-	std, err := stdx509.ParseCertificate(der)
-	if err != nil {
-		return "standard library cannot parse it: " + err.Error()
-	}
-	for k := range keyIDs {
-		signer := &stdx509.Certificate{PublicKey: pki.Key(k).Public()}
-		err := checkSigStd(signer, std)
-		if (err == nil) != (k == a.SKey) {
-			return fmt.Sprintf("signature verifies under %s = %v, signing key is %s", k, err == nil, a.SKey)
-		}
-	}
-	if c.SelfSigned != (a.Iss == a.Subj && a.SKey == a.Key) {
-		return "SelfSigned flag differs"
-	}
-	if !c.NotBefore.Equal(pki.At(a.NB)) || !c.NotAfter.Equal(pki.At(a.NA)) {
-		return "validity differs"
-	}
-	if ver < 3 {
-		if a.BC || a.CA || len(a.EKU) > 0 || len(a.DNS) > 0 || a.SKID != "" || a.AKID != "" || a.KU != 0 || len(a.IPs) > 0 {
-			return "abstract v1/v2 certificate carries extension attributes"
-		}
-		if len(c.Extensions) != 0 {
-			return "v1/v2 certificate has extensions"
-		}
-		return ""
-	}
-	if c.BasicConstraintsValid != a.BC || c.IsCA != (a.BC && a.CA) {
-		return "basic constraints differ"
-	}
-	if a.BC && a.CA {
-		if c.MaxPathLen != a.PathLen {
-			return fmt.Sprintf("path length %d, want %d", c.MaxPathLen, a.PathLen)
-		}
-	} else if a.PathLen != -1 {
-		return "abstract non-CA certificate carries a path length"
-	}
-	var ekus []string
-	for _, u := range c.ExtKeyUsage {
-		ekus = append(ekus, ekuName[u])
-	}
-	for range c.UnknownExtKeyUsage {
-		ekus = append(ekus, "unk")
-	}
-	want := append([]string{}, a.EKU...)
-	sort.Strings(ekus)
-	sort.Strings(want)
-	if !reflect.DeepEqual(ekus, want) && !(len(ekus) == 0 && len(want) == 0) {
-		return fmt.Sprintf("eku %v, want %v", ekus, want)
-	}
-	if a.SKID != "" {
-		if !bytes.Equal(c.SubjectKeyId, pki.KeyID(a.SKID)) {
-			return "subject key id differs"
-		}
-	} else {
-		// The standard library gives every CA certificate a subject key id derived from its public
-		// key when the template has none.  Abstractly "no subject key id" means: none that an
-		// authority key id of this universe can refer to (those are pki.KeyID of abstract keys).
-		for k := range keyIDs {
-			if bytes.Equal(c.SubjectKeyId, pki.KeyID(k)) {
-				return "certificate without abstract subject key id carries the key id of " + k
-			}
-		}
-	}
-	if (a.AKID == "") != (len(c.AuthorityKeyId) == 0) || a.AKID != "" && !bytes.Equal(c.AuthorityKeyId, pki.KeyID(a.AKID)) {
-		return "authority key id differs"
-	}
-	if int(c.KeyUsage) != a.KU {
-		return "key usage differs"
-	}
-	if !(len(c.DNSNames) == 0 && len(a.DNS) == 0) && !reflect.DeepEqual(c.DNSNames, a.DNS) {
-		return "dns names differ"
-	}
-	return ""
-}
-
-func checkSigStd(signer, c *stdx509.Certificate) (err error) {
-	defer func() {
-		if r := recover(); r != nil {
-			err = fmt.Errorf("panic: %v", r)
-		}
-	}()
-	// CheckSignature only needs the signer's PublicKey; key/algorithm mismatch is an error
-	return signer.CheckSignature(c.SignatureAlgorithm, c.RawTBSCertificate, c.Signature)
 }
 
 func workers() int {
@@ -365,8 +227,18 @@ func runCase(p parsed, idx int, cs Case, zeroTime bool) []Obs {
 	for _, id := range cs.Roots {
 		roots.AddCert(p.get(id))
 	}
+	// choices that are not part of the case derive from its content (not from its position), so that a
+	// replay of the case alone makes the same calls
+	h := fnv.New32a()
+	for _, id := range cs.Certs {
+		h.Write([]byte(id))
+	}
+	for _, id := range cs.Roots {
+		h.Write([]byte(id))
+	}
+	pick := h.Sum32()
 	var inters *x509.CertPool
-	if len(cs.Inters) > 0 || idx%2 == 0 {
+	if len(cs.Inters) > 0 || pick%2 == 0 {
 		inters = x509.NewCertPool()
 		for _, id := range cs.Inters {
 			inters.AddCert(p.get(id))
@@ -375,7 +247,7 @@ func runCase(p parsed, idx int, cs Case, zeroTime bool) []Obs {
 	leaf := p.get(cs.Leaf)
 	var usages []x509.ExtKeyUsage
 	for _, u := range cs.Usages {
-		v, ok := ekuValue[u]
+		v, ok := pkv.EKUValue[u]
 		if !ok {
 			obs.Fatal("unknown requested usage %q", u)
 		}
@@ -401,7 +273,7 @@ func runCase(p parsed, idx int, cs Case, zeroTime bool) []Obs {
 		}
 		out = append(out, o)
 		// the deprecated detail API goes through Verify with no key usages and its own name check
-		if !zeroTime && (cs.Mode != "topo" || idx%4 == 0) {
+		if !zeroTime && (cs.Mode != "topo" || pick%4 < 2) {
 			s := Obs{Case: idx, API: "stupid", T: t, Expired: [][]string{}, Never: [][]string{}}
 			g := obs.Guard(watchdog, func() {
 				chains, val, err := leaf.ValidateWithStupidDetail(opts)
